@@ -373,6 +373,11 @@ class Executor(object):
                 raise Fail("a %s edited in place hashes unlike a fresh one with the same coordinates" % target.label, {"model": target.desc}, self.facts)
         if target.kind in ("G", "S", "H", "L"):
             self.check_entry(target, "after it was moved")
+            fresh = self.fresh(target)
+            if self.guard("==", lambda: target.obj == fresh) is not True or self.guard("==", lambda: fresh == target.obj) is not True:
+                raise Fail("a %s moved in place is not equal to a fresh one at its new position" % target.kind, {"model": target.desc}, self.facts)
+            if self.guard("hash", lambda: hash(target.obj)) != self.guard("hash", lambda: hash(fresh)):
+                raise Fail("a %s moved in place hashes unlike a fresh one at its new position" % target.kind, {"model": target.desc}, self.facts)
 
     # ---- queries
     def fresh(self, e):
